@@ -28,6 +28,7 @@ type FuncSpec struct {
 	Returns  []string
 	Requires []Clause
 	Ensures  []Clause
+	EnsuresLocal []Clause // checked at the exit of the body (may mention locals); not exported to callers
 	Loops    map[int]*LoopSpec
 	Modifies []string // heap component patterns
 	HasMod   bool
@@ -39,6 +40,7 @@ type FuncSpec struct {
 	Flags    map[string]string
 	Uses     []string // lemma instantiations
 	AtCalls  map[string][]Clause // "callee@n" -> extra call-site preconditions (typestate)
+	AfterCalls map[string][]Clause // "callee@n" -> assumptions about the call's result (rely conditions; listed in the evidence)
 	File     string
 	Line     int
 }
@@ -77,10 +79,10 @@ func newSpecSet() *SpecSet {
 }
 
 var clauseKeywords = map[string]bool{
-	"func": true, "spec": true, "axiom": true, "requires": true, "ensures": true,
+	"func": true, "spec": true, "axiom": true, "requires": true, "ensures": true, "ensureslocal": true,
 	"modifies": true, "pure": true, "loop": true, "inline": true, "trusted": true,
 	"maypanic": true, "property": true, "returns": true, "flag": true, "use": true,
-	"constglobal": true, "opaque": true, "package": true, "ghostcomp": true, "atcall": true,
+	"constglobal": true, "opaque": true, "package": true, "ghostcomp": true, "atcall": true, "aftercall": true,
 }
 
 var reLabel = regexp.MustCompile(`^@([A-Za-z0-9_.\-]+)\s+`)
@@ -157,7 +159,7 @@ func (ss *SpecSet) loadSpecFile(path, pkgName string) error {
 					rets = append(rets, strings.TrimSpace(x))
 				}
 			}
-			cur = &FuncSpec{Pkg: pkgName, Name: name, Returns: rets, Loops: map[int]*LoopSpec{}, Flags: map[string]string{}, AtCalls: map[string][]Clause{}, File: path, Line: rc.line}
+			cur = &FuncSpec{Pkg: pkgName, Name: name, Returns: rets, Loops: map[int]*LoopSpec{}, Flags: map[string]string{}, AtCalls: map[string][]Clause{}, AfterCalls: map[string][]Clause{}, File: path, Line: rc.line}
 			if _, dup := ss.Funcs[cur.Key()]; dup {
 				return fmt.Errorf("%s:%d: duplicate contract for %s", path, rc.line, cur.Key())
 			}
@@ -209,6 +211,12 @@ func (ss *SpecSet) loadSpecFile(path, pkgName string) error {
 					return err
 				}
 				cur.Ensures = append(cur.Ensures, c)
+			case "ensureslocal":
+				c, err := mkClause(rest)
+				if err != nil {
+					return err
+				}
+				cur.EnsuresLocal = append(cur.EnsuresLocal, c)
 			case "loop":
 				// loop <n> invariant <expr>
 				parts := strings.SplitN(rest, " ", 3)
@@ -258,6 +266,17 @@ func (ss *SpecSet) loadSpecFile(path, pkgName string) error {
 				}
 			case "use":
 				cur.Uses = append(cur.Uses, rest)
+			case "aftercall":
+				// aftercall <callee>@<n> assume <expr>   (result denotes the call's first result)
+				parts := strings.SplitN(rest, " ", 3)
+				if len(parts) < 3 || parts[1] != "assume" {
+					return fmt.Errorf("%s:%d: expected 'aftercall <callee>@<n> assume <expr>'", path, rc.line)
+				}
+				c, err := mkClause(strings.TrimSpace(parts[2]))
+				if err != nil {
+					return err
+				}
+				cur.AfterCalls[parts[0]] = append(cur.AfterCalls[parts[0]], c)
 			case "atcall":
 				// atcall <callee>@<n> requires <expr>
 				parts := strings.SplitN(rest, " ", 3)
